@@ -44,6 +44,7 @@ type c19Nbr struct {
 	id   netip.Addr
 	as   uint32
 	as4  bool // 4-octet AS capability negotiated
+	ap   bool // ADD-PATH receive negotiated (the neighbour sends path identifiers)
 	p    *peer
 	info *table.PeerInfo
 }
@@ -57,15 +58,23 @@ func (n *c19Nbr) key() string {
 type c19Route struct {
 	prefix   string
 	withdraw bool
+	pathID   uint32
 }
 
-func c19DecodePrefixes(b []byte, six, addPath bool) ([]string, error) {
-	var out []string
+type c19Pfx struct {
+	s  string
+	id uint32
+}
+
+func c19DecodePrefixes(b []byte, six, addPath bool) ([]c19Pfx, error) {
+	var out []c19Pfx
 	for len(b) > 0 {
+		id := uint32(0)
 		if addPath {
 			if len(b) < 4 {
 				return nil, fmt.Errorf("short path id")
 			}
+			id = binary.BigEndian.Uint32(b)
 			b = b[4:]
 		}
 		if len(b) < 1 {
@@ -83,7 +92,7 @@ func c19DecodePrefixes(b []byte, six, addPath bool) ([]string, error) {
 		a := make([]byte, width)
 		copy(a, b[1:1+n])
 		addr, _ := netip.AddrFromSlice(a)
-		out = append(out, netip.PrefixFrom(addr, bits).String())
+		out = append(out, c19Pfx{netip.PrefixFrom(addr, bits).String(), id})
 		b = b[1+n:]
 	}
 	return out, nil
@@ -104,7 +113,7 @@ func c19DecodeUpdate(msg []byte, asSize int, addPath func(afi uint16, safi uint8
 		return nil, nil, false, fmt.Errorf("withdrawn routes: %v", err)
 	}
 	for _, p := range wd {
-		routes = append(routes, c19Route{p, true})
+		routes = append(routes, c19Route{p.s, true, p.id})
 	}
 	b = b[2+wl:]
 	al := int(binary.BigEndian.Uint16(b))
@@ -163,7 +172,7 @@ func c19DecodeUpdate(msg []byte, asSize int, addPath func(afi uint16, safi uint8
 				return nil, nil, false, fmt.Errorf("MP_REACH: %v", err)
 			}
 			for _, p := range ps {
-				routes = append(routes, c19Route{p, false})
+				routes = append(routes, c19Route{p.s, false, p.id})
 			}
 		case 15: // MP_UNREACH_NLRI
 			if len(v) < 3 {
@@ -178,7 +187,7 @@ func c19DecodeUpdate(msg []byte, asSize int, addPath func(afi uint16, safi uint8
 				return nil, nil, false, fmt.Errorf("MP_UNREACH: %v", err)
 			}
 			for _, p := range ps {
-				routes = append(routes, c19Route{p, true})
+				routes = append(routes, c19Route{p.s, true, p.id})
 			}
 		}
 	}
@@ -187,7 +196,7 @@ func c19DecodeUpdate(msg []byte, asSize int, addPath func(afi uint16, safi uint8
 		return nil, nil, false, fmt.Errorf("NLRI: %v", err)
 	}
 	for _, p := range ps {
-		routes = append(routes, c19Route{p, false})
+		routes = append(routes, c19Route{p.s, false, p.id})
 	}
 	return routes, asPath, eor, nil
 }
@@ -236,7 +245,9 @@ type c19BmpWorld struct {
 	sent map[string]map[string]bool
 	// prefixes (with the AS_PATHs they were learnt with) the Loc-RIB may hold
 	locRib map[string]map[string]bool
-	seq    int
+	// path identifier an ADD-PATH neighbour sent with a prefix
+	pathIDs map[string]uint32
+	seq     int
 }
 
 func (w *c19BmpWorld) note(n *c19Nbr, prefix string, as []uint32) {
@@ -273,6 +284,12 @@ func (w *c19BmpWorld) route(n *c19Nbr) (*table.Path, *apiutil.Path, []uint32, *b
 		}
 	}
 	nlri, _ := bgp.NewIPAddrPrefix(pfx)
+	pathID := uint32(0)
+	var opts []*bgp.MarshallingOption
+	if n.ap {
+		pathID = uint32(1 + r.intn(1000))
+		opts = []*bgp.MarshallingOption{{AddPath: map[bgp.Family]bgp.BGPAddPathMode{fam: bgp.BGP_ADD_PATH_BOTH}}}
+	}
 	var asAttr bgp.PathAttributeInterface
 	if n.as4 {
 		asAttr = bgp.NewPathAttributeAsPath([]bgp.AsPathParamInterface{bgp.NewAs4PathParam(2, as)})
@@ -291,26 +308,29 @@ func (w *c19BmpWorld) route(n *c19Nbr) (*table.Path, *apiutil.Path, []uint32, *b
 		var nh [16]byte
 		binary.BigEndian.PutUint64(nh[:], 0x20010db8ffff0000)
 		nh[15] = 1
-		mp, _ := bgp.NewPathAttributeMpReachNLRI(fam, []bgp.PathNLRI{{NLRI: nlri}}, netip.AddrFrom16(nh))
+		mp, _ := bgp.NewPathAttributeMpReachNLRI(fam, []bgp.PathNLRI{{NLRI: nlri, ID: pathID}}, netip.AddrFrom16(nh))
 		wire, tbl = append(wire, mp), append(tbl, mp)
 		upd = bgp.NewBGPUpdateMessage(nil, wire, nil)
 	} else {
 		nh, _ := bgp.NewPathAttributeNextHop(netip.AddrFrom4([4]byte{192, 0, 2, 1}))
 		wire, tbl = append(wire, nh), append(tbl, nh)
-		upd = bgp.NewBGPUpdateMessage(nil, wire, []bgp.PathNLRI{{NLRI: nlri}})
+		upd = bgp.NewBGPUpdateMessage(nil, wire, []bgp.PathNLRI{{NLRI: nlri, ID: pathID}})
 	}
-	payload, err := upd.Serialize()
+	payload, err := upd.Serialize(opts...)
 	if err != nil {
 		w.t.Fatal(err)
 	}
-	tp := table.NewPath(fam, n.info, bgp.PathNLRI{NLRI: nlri}, false, tbl, time.Now(), false)
-	ap := &apiutil.Path{Family: fam, Nlri: nlri, Age: time.Now().Unix(), Attrs: tbl, PeerASN: n.as, PeerID: n.id, PeerAddress: n.addr}
+	tp := table.NewPath(fam, n.info, bgp.PathNLRI{NLRI: nlri, ID: pathID}, false, tbl, time.Now(), false)
+	ap := &apiutil.Path{Family: fam, Nlri: nlri, Age: time.Now().Unix(), Attrs: tbl, PeerASN: n.as, PeerID: n.id, PeerAddress: n.addr, RemoteID: pathID}
 	w.note(n, pfx.String(), as)
+	if n.ap {
+		w.pathIDs[n.key()+" "+pfx.String()] = pathID
+	}
 	return tp, ap, as, upd, payload
 }
 
 func c19BmpWorldStart(t *testing.T, o *vOut, r *vRand, policy api.AddBmpRequest_MonitoringPolicy) *c19BmpWorld {
-	w := &c19BmpWorld{t: t, o: o, r: r, policy: policy, sent: map[string]map[string]bool{}, locRib: map[string]map[string]bool{}}
+	w := &c19BmpWorld{t: t, o: o, r: r, policy: policy, sent: map[string]map[string]bool{}, locRib: map[string]map[string]bool{}, pathIDs: map[string]uint32{}}
 	s := NewBgpServer()
 	go s.Serve()
 	if err := s.StartBgp(context.Background(), &api.StartBgpRequest{Global: &api.Global{Asn: 65001, RouterId: "1.1.1.1", ListenPort: -1}}); err != nil {
@@ -322,13 +342,16 @@ func c19BmpWorldStart(t *testing.T, o *vOut, r *vRand, policy api.AddBmpRequest_
 		{name: "as4", addr: netip.MustParseAddr("10.0.0.3"), id: netip.MustParseAddr("3.3.3.3"), as: 4200000001, as4: true},
 		{name: "as4-v6", addr: netip.MustParseAddr("2001:db8::3"), id: netip.MustParseAddr("4.4.4.4"), as: 65003, as4: true},
 		{name: "as2-only-v6", addr: netip.MustParseAddr("2001:db8::4"), id: netip.MustParseAddr("5.5.5.5"), as: 65004},
+		// the product with ADD-PATH receive: 2-octet-AS-only x ADD-PATH, 4-octet-AS x ADD-PATH
+		{name: "as2-only-addpath", addr: netip.MustParseAddr("10.0.0.6"), id: netip.MustParseAddr("6.6.6.1"), as: 65006, ap: true},
+		{name: "as4-addpath-v6", addr: netip.MustParseAddr("2001:db8::7"), id: netip.MustParseAddr("6.6.6.2"), as: 4200000007, as4: true, ap: true},
 	}
 	for _, n := range w.nbrs {
 		if err := s.AddPeer(context.Background(), &api.AddPeerRequest{Peer: &api.Peer{
 			Conf: &api.PeerConf{NeighborAddress: n.addr.String(), PeerAsn: n.as, AdminDown: true},
 			AfiSafis: []*api.AfiSafi{
-				{Config: &api.AfiSafiConfig{Family: &api.Family{Afi: api.Family_AFI_IP, Safi: api.Family_SAFI_UNICAST}, Enabled: true}},
-				{Config: &api.AfiSafiConfig{Family: &api.Family{Afi: api.Family_AFI_IP6, Safi: api.Family_SAFI_UNICAST}, Enabled: true}},
+				{Config: &api.AfiSafiConfig{Family: &api.Family{Afi: api.Family_AFI_IP, Safi: api.Family_SAFI_UNICAST}, Enabled: true}, AddPaths: &api.AddPaths{Config: &api.AddPathsConfig{Receive: n.ap}}},
+				{Config: &api.AfiSafiConfig{Family: &api.Family{Afi: api.Family_AFI_IP6, Safi: api.Family_SAFI_UNICAST}, Enabled: true}, AddPaths: &api.AddPaths{Config: &api.AddPathsConfig{Receive: n.ap}}},
 			},
 		}}); err != nil {
 			t.Fatalf("AddPeer: %v", err)
@@ -341,8 +364,15 @@ func c19BmpWorldStart(t *testing.T, o *vOut, r *vRand, policy api.AddBmpRequest_
 		if err := s.mgmtOperation(func() error {
 			p := s.neighborMap[n.addr]
 			n.p = p
-			p.fsm.familyMap.Store(map[bgp.Family]bgp.BGPAddPathMode{bgp.RF_IPv4_UC: bgp.BGP_ADD_PATH_NONE, bgp.RF_IPv6_UC: bgp.BGP_ADD_PATH_NONE})
+			mode := bgp.BGP_ADD_PATH_NONE
+			if n.ap {
+				mode = bgp.BGP_ADD_PATH_RECEIVE
+			}
+			p.fsm.familyMap.Store(map[bgp.Family]bgp.BGPAddPathMode{bgp.RF_IPv4_UC: mode, bgp.RF_IPv6_UC: mode})
 			caps := []bgp.ParameterCapabilityInterface{bgp.NewCapMultiProtocol(bgp.RF_IPv4_UC), bgp.NewCapMultiProtocol(bgp.RF_IPv6_UC)}
+			if n.ap {
+				caps = append(caps, bgp.NewCapAddPath([]*bgp.CapAddPathTuple{bgp.NewCapAddPathTuple(bgp.RF_IPv4_UC, bgp.BGP_ADD_PATH_SEND), bgp.NewCapAddPathTuple(bgp.RF_IPv6_UC, bgp.BGP_ADD_PATH_SEND)}))
+			}
 			myas := uint16(n.as)
 			if n.as4 {
 				caps = append(caps, bgp.NewCapFourOctetASNumber(n.as))
@@ -551,7 +581,7 @@ func (ss *c19Session) check(raw []byte) {
 			o.stat("session_eor", 1)
 			return
 		}
-		o.stat(fmt.Sprintf("session_rm_peertype%d_A%d", ph.PeerType, asSize), 1)
+		o.stat(fmt.Sprintf("session_rm_peertype%d_A%d_addpath%v", ph.PeerType, asSize, len(ap) > 0), 1)
 		for _, rt := range routes {
 			if rt.withdraw {
 				continue
@@ -563,6 +593,9 @@ func (ss *c19Session) check(raw []byte) {
 				for _, n := range w.nbrs {
 					if n.addr.WithZone("") == ph.PeerAddress && n.as == ph.PeerAS && n.id == ph.PeerBGPID {
 						ok = w.sent[n.key()][rt.prefix+" "+c19AsPathStr(asPath)]
+						if id, has := w.pathIDs[n.key()+" "+rt.prefix]; ok && has && id != rt.pathID {
+							fail("bmp-session-path-id-differs", map[string]any{"peer": key, "prefix": rt.prefix, "sent_path_id": id, "decoded_path_id": rt.pathID})
+						}
 					}
 				}
 			}
